@@ -48,7 +48,7 @@ for name in sorted(os.listdir(srcroot)):
         'property_id': pid, 'round': int(rnd),
         'breaks': am.get('summary', ''), 'needs_to_manifest': am.get('needs', ''),
         'demo_files': rels, 'demo_command': am.get('demo', ''),
-        'origin': 'written by a fresh sub-agent that was given only the property text, its own scratch worktree and one-line descriptions of the two earlier seeded changes for this property (nothing from /verif)',
+        'origin': os.environ.get('SEED_ORIGIN', 'written by a fresh sub-agent that was given only the property text, its own scratch worktree and one-line descriptions of the earlier seeded changes for this property (nothing from /verif)'),
         'confirmed_by_owner': {
             'how': 'tools/seedcheck.sh %s <dir>: fresh worktree of /repo HEAD, git apply patch.diff, go build ./..., the repository suite in both modules, the demo with and without the change, then `VERIF_REPO=<worktree> python3 run.py %s quick`' % (pid, pid),
             'repository_suite': suite, 'demonstration': demo,
